@@ -543,6 +543,12 @@ impl Ctx {
             Op::Sub => x.sub(y),
             Op::Mul => x.mul(y),
             Op::Div => x.div(y),
+            Op::Rem if self.mode == Mode::R && !self.concolic && y.0 != 0 => {
+                // truncating remainder (Rust `%`): a - b * trunc(a / b), sign of the dividend
+                let q = x.div(y)?;
+                let t = if q.0 >= 0 { q.0 / q.1 } else { -((-q.0) / q.1) };
+                y.mul(Rat::int(t)).and_then(|tb| x.sub(tb))
+            }
             Op::RemEuclid | Op::DivEuclid if self.mode == Mode::R && !self.concolic && y.0 != 0 => {
                 // a = k*p + r, k integer, 0 <= r < |p|
                 let ap = Rat(y.0.abs(), y.1);
@@ -855,10 +861,13 @@ pub struct ExploreCfg {
     pub prune: bool,
     pub max_paths: usize,
     pub timeout_ms: u64,
+    /// wall-clock budget of one exploration; when exceeded the exploration is truncated (reported, never a pass)
+    pub max_seconds: u64,
 }
 impl ExploreCfg {
     pub fn new(mode: Mode, max_index: usize) -> Self {
-        ExploreCfg { mode, max_index, prune: true, max_paths: 20000, timeout_ms: 5000 }
+        let max_seconds = std::env::var("VERIF_EXPLORE_SECONDS").ok().and_then(|s| s.parse().ok()).unwrap_or(240);
+        ExploreCfg { mode, max_index, prune: true, max_paths: 20000, timeout_ms: 5000, max_seconds }
     }
 }
 
@@ -888,6 +897,7 @@ pub fn explore<R>(cfg: &ExploreCfg, mut f: impl FnMut() -> R) -> (Vec<Path<R>>, 
             s.timeout_ms = cfg.timeout_ms;
         }
     });
+    let t_start = std::time::Instant::now();
     loop {
         with_ctx(|c| c.reset_path());
         let r = std::panic::catch_unwind(std::panic::AssertUnwindSafe(|| f()));
@@ -910,7 +920,7 @@ pub fn explore<R>(cfg: &ExploreCfg, mut f: impl FnMut() -> R) -> (Vec<Path<R>>, 
                 }
             }
         }
-        if out.len() >= cfg.max_paths {
+        if out.len() >= cfg.max_paths || t_start.elapsed().as_secs() >= cfg.max_seconds {
             stats.truncated = true;
             break;
         }
